@@ -326,6 +326,62 @@ func concSeq(op string, g int) string {
 	return r
 }
 
+// handOff: the documented way to let reading and handling run concurrently -- the bulk handlers' map handler passes its arguments
+// to a goroutine and returns true.  What was handed over stays what it was while later messages are read (Map and raw bytes).
+func handOff(a *Acc) {
+	var xs, js strings.Builder
+	var wantX, wantJ []string
+	for i := 0; i < 12; i++ {
+		x := fmt.Sprintf("<msg><id>%02d</id><t>v%02d</t></msg>", i, i)
+		j := fmt.Sprintf(`{"id":"%02d","t":"v%02d"}`, i, i)
+		xs.WriteString(x)
+		js.WriteString(j)
+		wantX = append(wantX, x)
+		wantJ = append(wantJ, j)
+	}
+	type item struct {
+		m   mxj.Map
+		raw []byte
+	}
+	collect := func(run func(h func(mxj.Map, []byte) bool) error) ([]string, []string, error) {
+		ch := make(chan item, 64)
+		var got []item
+		done := make(chan struct{})
+		go func() {
+			for it := range ch {
+				got = append(got, it) // kept, looked at only after the whole stream has been read
+			}
+			close(done)
+		}()
+		err := run(func(m mxj.Map, raw []byte) bool { ch <- item{m, raw}; return true })
+		close(ch)
+		<-done
+		var raws, ids []string
+		for _, it := range got {
+			raws = append(raws, string(it.raw))
+			v, _ := it.m.ValueForPathString("msg.id")
+			if v == "" {
+				v, _ = it.m.ValueForPathString("id")
+			}
+			ids = append(ids, v)
+		}
+		return raws, ids, err
+	}
+	rx, ix, ex := collect(func(h func(mxj.Map, []byte) bool) error {
+		return mxj.HandleXmlReaderRaw(hideByteReader{strings.NewReader(xs.String())}, h, func(error, []byte) bool { return false })
+	})
+	rj, ij, ej := collect(func(h func(mxj.Map, []byte) bool) error {
+		return mxj.HandleJsonReaderRaw(hideByteReader{strings.NewReader(js.String())}, h, func(error, []byte) bool { return false })
+	})
+	wantIDs := "00 01 02 03 04 05 06 07 08 09 10 11"
+	if ex != nil || strings.Join(rx, "|") != strings.Join(wantX, "|") || strings.Join(ix, " ") != wantIDs {
+		a.Mis("conc:handoff:xml", fmt.Sprintf("HandleXmlReaderRaw with a handler that hands Map and raw bytes to a goroutine: after the stream was read the raw values are %q (err %v), the messages were %q", rx, ex, wantX), concLine{F: "conc", Free: true})
+	}
+	if ej != nil || strings.Join(rj, "|") != strings.Join(wantJ, "|") || strings.Join(ij, " ") != wantIDs {
+		a.Mis("conc:handoff:json", fmt.Sprintf("HandleJsonReaderRaw with a handler that hands Map and raw bytes to a goroutine: after the stream was read the raw values are %q (err %v), the messages were %q", rj, ej, wantJ), concLine{F: "conc", Free: true})
+	}
+}
+
 func replayConc(line []byte, a *Acc) {
 	var l concLine
 	if err := json.Unmarshal(line, &l); err != nil {
@@ -334,12 +390,16 @@ func replayConc(line []byte, a *Acc) {
 	concOnce.Do(func() {
 		concSetup()
 		mxj.VerifGateFn = gateFn
+		handOff(a)
 	})
 	// sequential reference results (no scheduler installed: gates pass)
 	for g, p := range l.Progs {
 		for _, op := range p {
 			concSeq(op, g+1)
 		}
+	}
+	if l.Free && len(l.Progs) == 0 {
+		return // (the replay case of a hand-off finding: handOff has just run)
 	}
 	if l.Free {
 		// re-execution of a free-run divergence (not deterministic: several attempts)
@@ -454,12 +514,17 @@ func exoticMap() mxj.Map {
 	bs := append(make([]byte, 0, 64), "a&b<c"...)
 	// a sequence-shaped sub-document as it looks after a JSON round trip: float64 sequence numbers, two attributes, two children
 	sq := func(t string, n float64) map[string]interface{} { return map[string]interface{}{"#text": t, "#seq": n} }
-	return mxj.Map{"sq": map[string]interface{}{"r": map[string]interface{}{"#attr": map[string]interface{}{"x": sq("1", 0), "y": sq("2", 1)}, "b": sq("1", 0), "c": sq("2", 1)}},
+	// a list wider than the initial result capacity (queries that return more than 32 values)
+	wide := make([]interface{}, 40)
+	for i := range wide {
+		wide[i] = map[string]interface{}{"k": float64(i)}
+	}
+	return mxj.Map{"wide": wide, "sq": map[string]interface{}{"r": map[string]interface{}{"#attr": map[string]interface{}{"x": sq("1", 0), "y": sq("2", 1)}, "b": sq("1", 0), "c": sq("2", 1)}},
 		"doc": map[string]interface{}{"by": bs,
-		"-id": 7, "i64": int64(-2), "u64": uint64(3), "n": json.Number("1.50"), "f32like": 2.5,
-		"ss": []string{"a", "b<"}, "lm": []map[string]interface{}{{"k": 1}, {"k": "v", "-a": true}},
-		"m":     mxj.Map{"x": []interface{}{1, "two", nil, map[string]interface{}{"#text": "t", "-q": "r"}}},
-		"#text": "mixed & text", "e": []interface{}{}, "nil": nil}}
+			"-id": 7, "i64": int64(-2), "u64": uint64(3), "n": json.Number("1.50"), "f32like": 2.5,
+			"ss": []string{"a", "b<"}, "lm": []map[string]interface{}{{"k": 1}, {"k": "v", "-a": true}},
+			"m":     mxj.Map{"x": []interface{}{1, "two", nil, map[string]interface{}{"#text": "t", "-q": "r"}}},
+			"#text": "mixed & text", "e": []interface{}{}, "nil": nil}}
 }
 
 func replayPure(line []byte, a *Acc) {
@@ -560,11 +625,26 @@ func pureOn(mv mxj.Map, a *Acc, l interface{}, jsonShaped bool) {
 	sort.Strings(conds)
 	n := 0
 	ids := containerIDs(mv)
+	// (all registers but the escaping pair: the one run on the exotic Map switches encoder-side escaping on for its own encoder
+	//  calls while other workers of this family are at work)
+	snapRegs := func() string {
+		o := mxj.VerifOptions()
+		delete(o, "escEnc")
+		delete(o, "escDec")
+		return fmt.Sprint(o)
+	}
+	regs := snapRegs()
 	check := func(name string, fn func()) bool {
 		n++
 		if p := guard(fn); p != "" {
 			// panics belong to C15; purity is checked on what returned
 			return true
+		}
+		// a read-only call writes nothing that outlives it: not the package's option registers either (goroutines that only
+		// query would race on them)
+		if now := snapRegs(); now != regs {
+			a.Mis("pure:registers:"+name, fmt.Sprintf("%s changed a package-level option register: %s -> %s", name, regs, now), l)
+			return false
 		}
 		// every map and list OBJECT of the receiver is still the one it was (a read-only call that swaps a member for an equal
 		// copy detaches what the caller obtained from earlier queries)
